@@ -24,6 +24,7 @@ type c04part struct {
 	lit     bool
 	nonSync bool
 	size    int64  // announced size
+	limit   int64  // largest size the server may accept in this position
 	payload []byte // octets actually sent for the literal
 	granted bool   // (out) the server answered the header with a continuation request
 	sent    bool   // (out) payload octets were put on the wire
@@ -40,6 +41,7 @@ type c04cmd struct {
 type c04peer struct {
 	cmds     []*c04cmd
 	hostile  bool // pipelines synchronising literal payloads without waiting
+	abandon  bool // after the header of a synchronising literal the server must refuse, goes straight on to the next command
 	maxRead  int
 	ci, pi   int
 	buf      []byte
@@ -105,6 +107,14 @@ func (p *c04peer) fill() (blocked bool) {
 		}
 		hdr += "}\r\n"
 		p.buf = append(p.buf, hdr...)
+		if p.abandon && !part.nonSync && part.size > part.limit {
+			// the command ends here (the server has to refuse this literal): nothing of it
+			// follows, the next command does
+			cmd.abandoned = true
+			p.ci++
+			p.pi = 0
+			continue
+		}
 		if part.nonSync || p.hostile {
 			part.sent = true
 			p.buf = append(p.buf, part.payload...)
@@ -194,7 +204,7 @@ func c04arg(kinds int) (parts []*c04part, want string, isLit bool) {
 	for i := 0; i < w && i < len(payload); i++ {
 		payload[i] = nd.Byte()
 	}
-	return []*c04part{{lit: true, nonSync: form == 2, size: size, payload: payload}}, string(payload), true
+	return []*c04part{{lit: true, nonSync: form == 2, size: size, limit: 4096, payload: payload}}, string(payload), true
 }
 
 // VerifC04Frame: template command with literal-capable arguments followed by two NOOPs.
@@ -202,6 +212,7 @@ func VerifC04Frame() {
 	tmpl := nd.Concretize(nd.Choice(6))
 	litPlus := nd.Bool()
 	hostile := nd.Param("hostile") == 1
+	abandon := nd.Param("hostile") == 2
 	caps := imap.CapSet{imap.CapIMAP4rev1: {}}
 	if litPlus {
 		caps[imap.CapLiteralPlus] = struct{}{}
@@ -264,6 +275,13 @@ func VerifC04Frame() {
 			ps = []*c04part{{lit: true, nonSync: true, size: 2, payload: []byte("ab")}}
 			w = "ab"
 		}
+		ps[0].limit = 100 * 1024 * 1024
+		if nd.Bool() {
+			// the backend rejects the APPEND without reading the message (no such mailbox):
+			// the literal is still framing
+			v.sess.appendRejectEarly = true
+			wantOp = "AppendRejected"
+		}
 		first.parts = append(first.parts, ps...)
 		want = append(want, w)
 		lits = append(lits, ps[0])
@@ -299,7 +317,7 @@ func VerifC04Frame() {
 	if nd.Param("states") == 1 {
 		startState = []imap.ConnState{imap.ConnStateNotAuthenticated, imap.ConnStateAuthenticated, imap.ConnStateSelected}[nd.Concretize(nd.Choice(3))]
 	}
-	peer := &c04peer{hostile: hostile}
+	peer := &c04peer{hostile: hostile, abandon: abandon}
 	if nd.Bool() {
 		peer.maxRead = 1
 	}
